@@ -283,3 +283,37 @@ theorem mem_specRules {px : E.ParseExt} {lists : List RList} {r : Rule} :
     exact ⟨l, hl, piece, hp, by simp only [E.acceptedOf, hn, hc]; rfl⟩
 
 end UF.Compose
+
+namespace UF.Compose
+open UF UF.Storage
+
+/-! ### cosmetic rules of a storage -/
+
+def cosRulesOf (L : List Rule) : List CosRule :=
+  L.filterMap fun | .cos c => some c | _ => none
+
+theorem mem_cosRulesOf (L : List Rule) (c : CosRule) : c ∈ cosRulesOf L ↔ Rule.cos c ∈ L := by
+  unfold cosRulesOf
+  simp only [List.mem_filterMap]
+  constructor
+  · rintro ⟨r, hr, h⟩
+    cases r <;> simp at h
+    subst h; exact hr
+  · intro h; exact ⟨_, h, rfl⟩
+
+/-- What `NewCosmeticEngine` is built from: the cosmetic rules the storage scan yields, in storage order
+    (none from an `IgnoreCosmetic` list). -/
+def storageCosRules (px : E.ParseExt) (lists : List RList) : List CosRule :=
+  cosRulesOf ((storageRules px lists).map (·.1))
+
+theorem storageCosRules_wf (px : E.ParseExt) (lists : List RList) : B.CosDomainsWF (storageCosRules px lists) := by
+  intro c hc d hd
+  unfold storageCosRules at hc
+  rw [mem_cosRulesOf] at hc
+  obtain ⟨⟨r, k⟩, hm, hr⟩ := List.mem_map.1 hc
+  simp only at hr
+  subst hr
+  obtain ⟨l, _, idx, line, _, hn, _, _⟩ := storageRules_line hm
+  exact (newCosmeticRule_good (newRule_cos hn) d hd).1
+
+end UF.Compose
